@@ -88,7 +88,13 @@ class Resolver(dns.resolver.BaseResolver):
             while not done:
                 nameserver, tcp, backoff = resolution.next_nameserver()
                 if backoff:
-                    await backend.sleep(backoff)
+                    # Do not sleep past the end of the lifetime.
+                    remaining = (
+                        start
+                        - time.time()
+                        + (self.lifetime if lifetime is None else lifetime)
+                    )
+                    await backend.sleep(min(backoff, max(0, remaining)))
                 timeout = self._compute_timeout(start, lifetime, resolution.errors)
                 try:
                     response = await nameserver.async_query(
